@@ -5,6 +5,7 @@
 package c20
 
 import (
+	"runtime"
 	"fmt"
 	"sort"
 	"sync"
@@ -536,12 +537,97 @@ func runRT(w *core.Worker, c RTCase) {
 	}
 }
 
+
+// ================================================================= Cancel racing with Next
+//
+// The scripts above call Cancel at a quiescent point (every consumer already parked in Next).
+// Here Cancel is fired WHILE consumers are on their way into Next: a Next that has checked the
+// stop flag but is not yet parked must not miss the wake-up. Goroutines run truly in parallel
+// inside the bubble; the offsets are spin counts. Verdict at the next quiescent point: every
+// Next has returned false (sync.Cond.Wait parks durably, so a lost wake-up is visible there).
+
+type CRCase struct {
+	Consumers int   `json:"consumers"`
+	Spins     []int `json:"spins"` // per consumer, before calling Next
+	CancelAt  int   `json:"cancel_spins"`
+	Trailing  bool  `json:"trailing"`
+	Trigger   bool  `json:"trigger"` // a Call shortly before
+	Rep       int   `json:"rep,omitempty"`
+}
+
+func runCR(w *core.Worker, c CRCase) {
+	var viol, detail string
+	var vmu sync.Mutex
+	fail := func(sig, format string, a ...any) {
+		vmu.Lock()
+		if viol == "" {
+			viol, detail = "throttle."+sig, fmt.Sprintf(format, a...)
+		}
+		vmu.Unlock()
+	}
+	p := core.Catch(func() {
+		synctest.Test(w.R.T.(*testing.T), func(t *testing.T) {
+			th := gogu.NewThrottle(5*time.Millisecond, c.Trailing)
+			if c.Trigger {
+				th.Call()
+				if !th.Next() {
+					fail("next-false-without-cancel", "Next returned false before Cancel")
+					return
+				}
+			}
+			var mu sync.Mutex
+			done := make([]bool, c.Consumers)
+			res := make([]bool, c.Consumers)
+			start := make(chan struct{})
+			for i := 0; i < c.Consumers; i++ {
+				go func(i int) {
+					<-start
+					for k := 0; k < c.Spins[i]; k++ {
+						runtime.Gosched()
+					}
+					ok := th.Next()
+					mu.Lock()
+					done[i], res[i] = true, ok
+					mu.Unlock()
+				}(i)
+			}
+			close(start)
+			for k := 0; k < c.CancelAt; k++ {
+				runtime.Gosched()
+			}
+			th.Cancel()
+			synctest.Wait()
+			mu.Lock()
+			for i := range done {
+				if !done[i] {
+					fail("next-still-blocked-after-cancel", "Cancel fired while %d consumers were entering Next (spins %v, cancel after %d yields): consumer %d is still blocked in Next at the next quiescent point", c.Consumers, c.Spins, c.CancelAt, i)
+				} else if res[i] && !c.Trigger {
+					fail("permission-without-trigger", "consumer %d got a permission although no trigger ever arrived", i)
+				}
+			}
+			mu.Unlock()
+			th.Cancel() // lets stragglers of a broken implementation go, so that the bubble can end
+			th.Call()
+		})
+	})
+	if p != nil && viol == "" {
+		viol, detail = "throttle.cancel-race-panic", fmt.Sprint(p)
+	}
+	if viol != "" {
+		w.Violation(viol, detail)
+		return
+	}
+	cc := c
+	cc.Rep = 0
+	w.NonTrivial(core.HashString(core.JSON(cc)))
+}
+
 // ================================================================= generators
 
 func TestProp(t *testing.T) {
 	r := core.Start(t, "C20")
 	defer r.Finish()
-	r.Rule("all inside testing/synctest bubbles (-race build), timestamps are exact virtual instants. delay: Delay(d) with Stop at instants around d: not before d, once, not after Stop, does run otherwise. debounce: scripts of call / burst of 3 concurrent calls / cancel with gaps below and above the wait (never equal): a function runs iff no call or cancel follows within the wait, exactly one per burst, never sooner than wait after the latest call, also when the debounced function itself takes time (0.6 / 1.7 waits) so that calls and cancels arrive while it runs. throttle: scripts of Call / burst of 3 concurrent Calls with gaps around the period, consumer goroutines looping on Next (always waiting, late, with simulated work, two consumers), Cancel at the end: permissions >= one period apart, each preceded by a trigger since the previous one (trailing off: by one that came >= a period later), trailing on: at every quiescent point a waiting Next has been served once trigger and period are due, after Cancel every Next returns false with zero virtual time elapsed, also after further Calls; throttle-realtime: the same throttle on the real clock under a storm of Call() from 2-3 goroutines, permissions taken in pairs and bracketed by monotonic clock readings (bracket < period = two permissions within one period; one-sided, load-proof); non-trivial = >= 2 events; distinct by hash of the case without the repetition index")
+	r.Rule("all inside testing/synctest bubbles (-race build), timestamps are exact virtual instants. delay: Delay(d) with Stop at instants around d: not before d, once, not after Stop, does run otherwise. debounce: scripts of call / burst of 3 concurrent calls / cancel with gaps below and above the wait (never equal): a function runs iff no call or cancel follows within the wait, exactly one per burst, never sooner than wait after the latest call, also when the debounced function itself takes time (0.6 / 1.7 waits) so that calls and cancels arrive while it runs. throttle: scripts of Call / burst of 3 concurrent Calls with gaps around the period, consumer goroutines looping on Next (always waiting, late, with simulated work, two consumers), Cancel at the end: permissions >= one period apart, each preceded by a trigger since the previous one (trailing off: by one that came >= a period later), trailing on: at every quiescent point a waiting Next has been served once trigger and period are due, after Cancel every Next returns false with zero virtual time elapsed, also after further Calls; throttle-cancel-race: Cancel fired while 2-8 consumers are on their way into Next (spin-count offsets, true parallelism inside the bubble): at the next quiescent point every Next has returned false; throttle-realtime: the same throttle on the real clock under a storm of Call() from 2-3 goroutines, permissions taken in pairs and bracketed by monotonic clock readings (bracket < period = two permissions within one period; one-sided, load-proof); non-trivial = >= 2 events; distinct by hash of the case without the repetition index")
 
 	core.Monitor(r, "delay", 0, func(emit func(DelayCase)) {
 		for _, d := range []int{5000, 20000, 50000} {
@@ -667,4 +753,15 @@ func TestProp(t *testing.T) {
 			}
 		}
 	}, runRT)
+
+	core.Monitor(r, "throttle-cancel-race", 0, func(emit func(CRCase)) {
+		rng := r.Rand("c20-cancel-race")
+		for i := r.Pick(40000, 600000); i > 0; i-- {
+			c := CRCase{Consumers: rng.Range(2, 8), CancelAt: rng.Intn(24), Trailing: rng.Bool(), Trigger: rng.Chance(1, 4), Rep: i}
+			for k := 0; k < c.Consumers; k++ {
+				c.Spins = append(c.Spins, rng.Intn(24))
+			}
+			emit(c)
+		}
+	}, runCR)
 }
